@@ -71,6 +71,9 @@ Shape(d, k) ==
       p == d * 100 + c.seq + 1
   IN CASE k = "C" -> [ty |-> "C", rk |-> 0, sig |-> "ok", nuc |-> 4, nrc |-> 1, dl |-> "ok", win |-> "none", p |-> d * 100, sfx |-> "ok"]
        [] k = "U" -> [ty |-> "U", rk |-> c.uk, sig |-> "ok", nuc |-> c.uk + 1, nrc |-> 0, dl |-> "ok", win |-> "none", p |-> p, sfx |-> "ok"]
+       \* "X": an update that re-commits to the DID's FIRST update key (4) - well-formed, accepted by intake, but ignored by
+       \* resolution while commitment 4 has already been consumed in the current chain (C12 end to end)
+       [] k = "X" -> [ty |-> "U", rk |-> c.uk, sig |-> "ok", nuc |-> 4, nrc |-> 0, dl |-> "ok", win |-> "none", p |-> p, sfx |-> "ok"]
        [] k = "R" -> [ty |-> "R", rk |-> c.rk, sig |-> "ok", nuc |-> c.uk + 1, nrc |-> c.rk + 1, dl |-> "ok", win |-> "none", p |-> p, sfx |-> "ok"]
        [] k = "D" -> [ty |-> "D", rk |-> c.rk, sig |-> "ok", nuc |-> 0, nrc |-> 0, dl |-> "ok", win |-> "none", p |-> 0, sfx |-> "ok"]
 
@@ -79,11 +82,13 @@ ClientCan(d, k) ==
   LET c == client[d] IN
   /\ IF k = "C" THEN ~c.created ELSE c.created
   /\ c.uk < 8 /\ c.rk < 3
+  /\ k = "X" => c.uk # 4          \* re-committing to the key being revealed is refused by intake (C12), not modelled here
 
 ClientAfter(d, k) ==
   LET c == client[d] IN
   CASE k = "C" -> [c EXCEPT !.created = TRUE]
     [] k = "U" -> [c EXCEPT !.uk = c.uk + 1, !.seq = c.seq + 1]
+    [] k = "X" -> [c EXCEPT !.uk = 4, !.seq = c.seq + 1]
     [] k = "R" -> [c EXCEPT !.uk = c.uk + 1, !.rk = c.rk + 1, !.seq = c.seq + 1]
     [] k = "D" -> [c EXCEPT !.dead = TRUE]
 
@@ -184,7 +189,7 @@ ResolveHist ==
   /\ H([a |-> "ResolveHist"])
   /\ UNCHANGED <<client, queue, unpub, ledger, observed, store, curver, nsub, faults, deferredEver>>
 
-Next == \/ \E d \in Dids, k \in {"C", "U", "R", "D"}, af \in BOOLEAN : Submit(d, k, af)
+Next == \/ \E d \in Dids, k \in {"C", "U", "X", "R", "D"}, af \in BOOLEAN : Submit(d, k, af)
         \/ \E fl \in BOOLEAN : Flush(fl)
         \/ Garbage \/ Dup
         \/ \E f \in {"none", "cas", "put"} : Observe(f)
@@ -222,7 +227,8 @@ DeactivatedRefuses == \A d \in Dids : (Resolved(d).exists /\ Resolved(d).deact) 
 (* client's intent is guaranteed only when nothing was deferred.  In a fault-free behaviour without pending         *)
 (* operations and without deferrals the resolved state is what the client intends:                                  *)
 ClientView(d) == client[d]
-Settled == queue = <<>> /\ observed = Len(ledger) /\ faults = 0 /\ unpub = {} /\ ~deferredEver
+NoKeyReuse == \A o \in store : ~(o.sh.ty = "U" /\ o.sh.nuc = 4)
+Settled == queue = <<>> /\ observed = Len(ledger) /\ faults = 0 /\ unpub = {} /\ ~deferredEver /\ NoKeyReuse
 IntendedState ==
   Settled => \A d \in Dids :
      LET c == client[d] r == Resolved(d) IN
